@@ -344,7 +344,7 @@ def eval_interleaved(ctx, case):
                                                 'a_early': early_a})
 
 
-def evaluate(ctx, case):
+def _evaluate_no_debug(ctx, case):
     from vlib import envmodes
     if envmodes.lazy_for(case, share=4):
         # the caller runs with warnings turned into errors (python -W error): still nothing but ImageFormatError
@@ -570,3 +570,13 @@ def run(ctx):
         if i % 4 == 1:
             case = dict(case, fifo=True)
         emit(case, 'detect')
+
+
+def _debug_ok(case):
+    return True
+
+
+# a third of the cases runs with the library's loggers at DEBUG and a handler that renders every record (debug=True in a
+# service's configuration); what the inspectors conclude may not depend on it
+from vlib import envmodes as _envmodes_dbg  # noqa: E402
+evaluate = _envmodes_dbg.with_modes(_evaluate_no_debug, debug=_debug_ok)
